@@ -11,6 +11,7 @@
 #define __GIVARO_MODULAR_EXTENDED_H
 
 #include <type_traits>
+#include <limits>
 
 #include "givaro/givconfig.h"
 
@@ -141,6 +142,10 @@ namespace Givaro{
 
         template<typename T>
         Element& init (Element& r, T a) const{
+            // an integral T wider than the mantissa (long long is not int64_t on LP64) goes through the exact 64-bit specialisation
+            typedef typename std::conditional<std::is_signed<T>::value, int64_t, uint64_t>::type Wide;
+            if (std::is_integral<T>::value && std::numeric_limits<T>::digits > std::numeric_limits<Element>::digits)
+                return init<Wide>(r, Caster<Wide>(a));
             r = Caster<Element>(a);
             return reduce(r);
         }
